@@ -1,9 +1,20 @@
 import I2N.Lemmas.PolicyGen
-/-! Equality of the regenerated `push_states` / `pop_states` iteration with the hand model. -/
+/-! Equality of the regenerated `push_states` / `pop_states` iteration with the hand model.
+
+Robustness note: the first version of this file began with `unfold genPushOne pushOne M.run`.  `unfold M.run` closes by a
+definitional cast (`M.run x s` is `x s` by `rfl`), so the KERNEL had to check
+`outOf (M.run (genPushOne B) s) = _  =?=  outOf (genPushOne B s) = _`; its lazy unfolding opens the side with the
+bigger definitional height first, i.e. the whole generated `do` block (binds, `pySplitChar`, `List.foldl` over the zip,
+`doStates` …) before it ever opens the one-line `M.run`: ~3 min of type checking for a 20 line proof (measured: the
+statement + `unfold M.run; sorry` alone takes that long).  Rewriting with the proved equation `M.run_ap` instead gives a
+`congrArg` term whose type the kernel matches syntactically: 17 ms. -/
 set_option linter.unusedSimpArgs false
 set_option linter.unusedVariables false
 namespace I2N.PolicyGen
 open I2N.Policy I2N.PolicyM I2N.Extracted.Policy I2N.Extracted.GenPolicy
+
+/-- `M.run` as a rewrite rule (never `unfold M.run` on a generated definition: see the note at the top) -/
+theorem M.run_ap {α : Type} (x : M α) (s : PS) : x.run s = x s := rfl
 
 /-- the five statements "restrict parametric objects of this type in the subroutine" are the hand model's `restrict` -/
 theorem restrict_def (sp : Params) :
@@ -20,7 +31,8 @@ theorem outOf_eta {α : Type} (r : Except Err α × St) (sp rp : Params) :
 theorem pushOne_eq (B : Backends) (sp rp : Params) (st : St)
     (hk : (restrict sp).getD "push_state" "" = sp.getD "push_state" "") :
     outOf ((genPushOne B).run ⟨sp, rp, st⟩) = pushOne B sp st := by
-  unfold genPushOne pushOne M.run
+  rw [M.run_ap]
+  unfold genPushOne pushOne
   rcases ht : sp.truthy "push_state" with _ | state <;> m_simp [ht]
   have hs := truthy_getD ht
   by_cases hr : roots.contains state = true
@@ -32,5 +44,37 @@ theorem pushOne_eq (B : Backends) (sp rp : Params) (st : St)
     m_simp [hs, hr, hr', restrict_def, hk, pushParams, dPushMode]
     generalize doStates B Do.set _ st = r
     rcases r with ⟨e | a, s⟩ <;> rfl
+
+/-- the key `pop_state` is still what it was when `pop_states` reads it for the second time (after `get_state`,
+`get_mode` were written and `get_states` returned) -/
+theorem popGetParams_pop_state (sp : Params) (state : String)
+    (hk : (restrict sp).getD "pop_state" "" = sp.getD "pop_state" "") :
+    (popGetParams sp state).getD "pop_state" "" = sp.getD "pop_state" "" := by
+  unfold popGetParams
+  rw [Params.getD_set_ne _ _ _ (by decide), Params.getD_set_ne _ _ _ (by decide), hk]
+
+theorem popOne_eq (B : Backends) (sp rp : Params) (st : St)
+    (hk : (restrict sp).getD "pop_state" "" = sp.getD "pop_state" "") :
+    outOf ((genPopOne B).run ⟨sp, rp, st⟩) = popOne B sp st := by
+  rw [M.run_ap]
+  unfold genPopOne popOne
+  rcases ht : sp.truthy "pop_state" with _ | state <;> m_simp [ht]
+  have hs := truthy_getD ht
+  by_cases hr : roots.contains state = true
+  · have hr' := hr
+    simp only [roots] at hr'
+    m_simp [hs, hr, hr']
+  · have hr' := hr
+    simp only [roots] at hr'
+    have hp := popGetParams_pop_state sp state hk
+    rw [hs] at hp
+    unfold popGetParams dPopGetMode at hp
+    m_simp [hs, hr, hr', restrict_def, hk, popGetParams, popUnsetParams, dPopGetMode, dPopUnsetMode]
+    generalize hg : doStates B Do.get _ st = r
+    rcases r with ⟨e | a, s1⟩
+    · rfl
+    · m_simp [hp]
+      generalize doStates B Do.unset _ s1 = r2
+      rcases r2 with ⟨e | a, s⟩ <;> rfl
 
 end I2N.PolicyGen
